@@ -200,6 +200,22 @@ impl<'a> RecordBuilder<'a> {
         }
     }
 
+    /// Stores a float in the width the column declares (like set_int_auto for integers).
+    pub fn set_float_auto(&mut self, col_idx: usize, value: f64) -> Result<()> {
+        use crate::types::DataType;
+
+        let col_type = self
+            .schema
+            .column(col_idx)
+            .map(|c| c.data_type)
+            .unwrap_or(DataType::Float8);
+
+        match col_type {
+            DataType::Float4 => self.set_float4(col_idx, value as f32),
+            _ => self.set_float8(col_idx, value),
+        }
+    }
+
     pub fn set_float4(&mut self, col_idx: usize, value: f32) -> Result<()> {
         self.set_fixed_bytes(col_idx, &value.to_le_bytes());
         Ok(())
